@@ -25,6 +25,7 @@ import (
 	"os"
 	"path/filepath"
 	"runtime"
+	"runtime/pprof"
 	"sort"
 	"strings"
 	"sync"
@@ -141,9 +142,17 @@ func shard(t *vk.T) {
 	if os.Getenv("VERIF_C40_CANARY") != "" && i == 0 {
 		raceCanary()
 	}
+	if pf := os.Getenv("VERIF_C40_PROFILE"); pf != "" {
+		f, _ := os.Create(fmt.Sprintf("%s.%d", pf, i))
+		_ = pprof.StartCPUProfile(f)
+		defer pprof.StopCPUProfile()
+	}
 	m := setupMaterial(t)
 	w := &worker{t: t, m: m, refs: map[string]*refEntry{}}
 	rounds := t.Pick(40, 600)
+	if s := os.Getenv("VERIF_C40_ROUNDS"); s != "" {
+		fmt.Sscan(s, &rounds)
+	}
 	for r := i; r < rounds; r += n {
 		w.round(r)
 	}
@@ -153,8 +162,7 @@ func shard(t *vk.T) {
 
 type refEntry struct {
 	res   *prepared
-	ok    bool   // two runs alone agree
-	level string // at which level they agree
+	ok bool // false once two runs alone were seen to differ
 }
 
 type worker struct {
@@ -166,17 +174,33 @@ type worker struct {
 
 func (w *worker) plan(r int) roundCase {
 	rng := w.t.RNGi("round", r)
+	// shard = r mod 4; within a shard (k = 0,1,2,…) GOMAXPROCS rotates through {1,2,4,16}, the font
+	// traffic alternates every round and the fs-call delays every two rounds.
 	k := r / len(procsOf)
-	rc := roundCase{Round: r, Procs: procsOf[r%len(procsOf)], G: 2 + rng.IntN(31), Fonts: k%2 == 0, Delays: (k/2)%2 == 1 && haveOsmon}
+	gs := []int{2, 2, 3, 4, 4, 6, 8, 8, 12, 16, 24, 32}
+	rc := roundCase{Round: r, Procs: procsOf[(k+r)%len(procsOf)], G: gs[rng.IntN(len(gs))], Fonts: k%2 == 0, Delays: (k/2)%2 == 1 && haveOsmon}
+	// each shard works on its own small pool of documents (the runs alone are the expensive part)
+	pool := w.pool(r % len(procsOf))
 	for g := 0; g < rc.G; g++ {
 		op := ops[rng.IntN(len(ops))]
-		rc.Tasks = append(rc.Tasks, task{Op: op.Name, Doc: rng.IntN(len(w.m.docs)), Doc2: rng.IntN(len(w.m.docs)), Spin: []int{0, 0, 1, 5, 20, 100, 400}[rng.IntN(7)]})
+		rc.Tasks = append(rc.Tasks, task{Op: op.Name, Doc: pool[rng.IntN(len(pool))], Doc2: pool[rng.IntN(len(pool))], Spin: []int{0, 0, 1, 5, 20, 100, 400}[rng.IntN(7)]})
 	}
 	if rc.Fonts {
 		rc.Readers = 2 + rng.IntN(5)
 		rc.Writes = 6 + rng.IntN(15)
 	}
 	return rc
+}
+
+// pool returns the indices of the documents shard i draws from.
+func (w *worker) pool(i int) []int {
+	n := len(w.m.docs)
+	per := w.t.Pick(3, 6)
+	var out []int
+	for j := 0; j < per; j++ {
+		out = append(out, (i*per+j)%n)
+	}
+	return out
 }
 
 func (w *worker) docsFor(op *opDef, tk task) (doc, doc) {
@@ -228,19 +252,29 @@ func (w *worker) ref(op *opDef, tk task) *refEntry {
 	if e, ok := w.refs[key]; ok {
 		return e
 	}
-	dir := filepath.Join(w.m.root, "ref")
-	a := w.exec(op, d, d2, dir)
-	b := w.exec(op, d, d2, dir)
-	e := &refEntry{res: prepare(op, a)}
-	e.ok, e.level, _ = same(op, e.res, prepare(op, b))
-	if !e.ok {
-		w.t.Count("left_out_differs_alone/"+op.Name, 1)
-	}
+	a := w.exec(op, d, d2, filepath.Join(w.m.root, "ref"))
+	e := &refEntry{res: prepare(op, a), ok: true}
 	if a.Panic != "" {
 		w.t.Count("pdfcpu_panics_alone", 1)
 	}
+	w.t.Count("runs_alone", 1)
 	w.refs[key] = e
 	return e
+}
+
+// differsAlone runs the task alone once more (nothing else is running) and reports whether two runs
+// alone already differ: then the operation is not deterministic by itself on this input and a
+// differing concurrent result says nothing.
+func (w *worker) differsAlone(op *opDef, tk task, e *refEntry) bool {
+	d, d2 := w.docsFor(op, tk)
+	b := w.exec(op, d, d2, filepath.Join(w.m.root, "ref"))
+	w.t.Count("runs_alone", 1)
+	ok, _, _ := same(op, e.res, prepare(op, b))
+	if !ok {
+		e.ok = false
+		w.t.Count("left_out_differs_alone/"+op.Name, 1)
+	}
+	return !ok
 }
 
 func (w *worker) round(r int) {
@@ -310,6 +344,9 @@ func (w *worker) round(r int) {
 		}
 		ok, level, why := same(op, refs[g].res, prepare(op, results[g]))
 		t.Count("compared_at_level/"+level, 1)
+		if !ok && w.differsAlone(op, tk, refs[g]) {
+			continue
+		}
 		if !ok {
 			t.Violate(fmt.Sprintf("determinism/op=%s/class=%s", tk.Op, level),
 				fmt.Sprintf("round %d (GOMAXPROCS %d, %d goroutines, fonts=%v, delays=%v), goroutine %d, %s on %s: result differs from the run alone: %s",
